@@ -51,6 +51,26 @@ func main() {
 		os.Exit(2)
 	}
 	st := verif.Run(f)
+	var om struct {
+		Oracle *struct {
+			Name   string `json:"name"`
+			Want10 int    `json:"want10"`
+		} `json:"oracle"`
+	}
+	_ = json.Unmarshal(b, &om)
+	if om.Oracle != nil && st == "ok" {
+		r, ok := verif.Relations[om.Oracle.Name]
+		if !ok {
+			fmt.Println("oracle relation not observed")
+			os.Exit(2)
+		}
+		fmt.Printf("replay %s: oracle %s: real code returns %v for levels %v, specification value %v\n", hdr.Harness, om.Oracle.Name, r.Val, r.Digits, float64(om.Oracle.Want10)/10)
+		if r.Val != float64(om.Oracle.Want10)/10 {
+			fmt.Println("  violated: the score differs from the exact specification value")
+			os.Exit(3)
+		}
+		os.Exit(0)
+	}
 	fmt.Printf("replay %s: %s\n", hdr.Harness, st)
 	for _, l := range verif.Failures {
 		fmt.Println("  failed assertion:", l)
